@@ -51,8 +51,7 @@ def getValue (tbl : List Row) (x : Rat) : Rat :=
         | none => 0
         | some (hx, hy) =>
           let m := (hy - ly) / (hx - lx)
-          let c := ly - m * lx
-          m * x + c
+          ly + m * (x - lx)
 
 /-- `TableReader(fileobj)(x)`: rows in file order are sorted first -/
 def tableReader (rows : List Row) (x : Rat) : Rat := getValue (sortRows rows) x
